@@ -21,7 +21,7 @@ def run_demo(src_dir, wt, orig_root):
     cmd = open(os.path.join(src_dir, "demo_cmd.txt")).read()
     cmd = cmd.replace(orig_root + "/seed_out", src_dir).replace(orig_root, wt)
     cmd = re.sub(r"-I\s*<[^>]*>(/include)?", "-I%s/include" % wt, cmd)
-    cmd = re.sub(r"<AVEL_ROOT>|\$\{?AVEL_ROOT\}?", wt, cmd)
+    cmd = re.sub(r"<AVEL_ROOT>|<AVEL>|<root>|\$\{?AVEL_ROOT\}?", wt, cmd)
     # keep only shell lines
     lines = [l for l in cmd.splitlines() if l.strip() and not l.strip().startswith("#")]
     script = "set -e\ncd %s\n" % src_dir + "\n".join(lines) + "\n"
@@ -45,8 +45,9 @@ def main():
     orig_root = os.path.dirname(os.path.abspath(src))
     dst = os.path.join(V, "seeded", name)
     os.makedirs(dst, exist_ok=True)
-    for f in ("patch.diff", "demo.cpp", "demo_cmd.txt", "notes.txt"):
-        if os.path.exists(os.path.join(src, f)):
+    for f in os.listdir(src):
+        if os.path.isfile(os.path.join(src, f)) and not f.startswith(".") and os.path.getsize(os.path.join(src, f)) < 200000 \
+                and f not in ("demo", "a.out"):
             shutil.copy(os.path.join(src, f), os.path.join(dst, f))
     wt = tempfile.mkdtemp(prefix="avel_seed_", dir="/tmp")
     os.rmdir(wt)
